@@ -82,6 +82,7 @@ type ResetEv struct {
 	Mode   string  `json:"mode"`
 	Src    string  `json:"src"`
 	Panicked bool  `json:"panicked"`
+	AltAcc   bool  `json:"altacc"` // the other source accepted the rule set
 }
 type LookupEv struct {
 	Ev   string `json:"ev"`
@@ -89,6 +90,7 @@ type LookupEv struct {
 	Kind string `json:"kind"`
 	Path []ATok `json:"path"`
 	Outs []ROut `json:"outs"`
+	Alt  ROut   `json:"alt"` // same rules declared through the other source (config <-> annotation)
 }
 
 func normElem(e *AElem) {
@@ -561,6 +563,14 @@ func runRouterCase(c RCase, seed int64) ([]interface{}, map[string]interface{}) 
 			}
 		}
 	}
+	altPlan := plan
+	if plan.src == "config" {
+		altPlan.src = "annotation"
+	} else {
+		altPlan.src = "config"
+	}
+	alt := buildMux(rules, orders[0], altPlan, &rng{s: tseed})
+	ev.AltAcc = alt.err == nil
 	ev.Rules = append(append([]ARule{}, rules...), implicitRules(plan.mode, plan.methods)...)
 	for i := range ev.Rules {
 		normRule(&ev.Rules[i])
@@ -601,6 +611,11 @@ func runRouterCase(c RCase, seed int64) ([]interface{}, map[string]interface{}) 
 			le := LookupEv{Ev: "Lookup", Case: c.ID, Kind: kind, Path: p}
 			for _, rm := range muxes {
 				le.Outs = append(le.Outs, rm.lookup(kind, text))
+			}
+			if alt.err == nil {
+				le.Alt = alt.lookup(kind, text)
+			} else {
+				le.Alt = ROut{K: "noalt", Caps: []Cap{}}
 			}
 			evs = append(evs, le)
 			reqs = append(reqs, kind+" "+text)
